@@ -14,10 +14,11 @@ import Asn1cModel.Spec.ModuleAst
     asn1fix_dereft.c   asn1f_fix_dereference_types                          → `derefFatal`
     asn1fix.c          asn1f_check_duplicate, phase 1, fatal count          → `fixerRun`, `fixerVerdict`
   The C code follows references by pointer chasing (recursion guarded by TM_RECURSION marks
-  in some places, unguarded in `_asn1f_compare_tags`).  The model follows them with fuel;
-  "fuel exhausted" is a distinguished outcome (`none` / `.loop`) that poisons the result, so
-  that `Dom_C11` can say "the model never ran out of fuel" (true for every module whose
-  look-through graph is acyclic).  Core Lean only.
+  in some places, by a depth limit with a FATAL diagnostic in `_asn1f_compare_tags`).  The
+  model follows them with fuel; "fuel exhausted" is a distinguished outcome (`none` / `.loop`)
+  that poisons the result — `fixerVerdict` reports it as reject, as the C code does when its
+  depth limit is reached — so that `Dom_C11` can say "the model never ran out of fuel" (true
+  for every module whose look-through graph is acyclic).  Core Lean only.
 -/
 namespace Asn1c.Impl.Fixer
 open Asn1c.Fix
@@ -252,7 +253,8 @@ def classify (M : Module) (a : Ex) (ma : Bool) (b : Ex) (mb : Bool) : Step :=
     Otherwise: if a or b is marked return 0, else mark both and swap.
     (The marks live on the expression nodes; an expression reached by following a reference or
     by iterating a CHOICE is a different node, hence unmarked — true as long as the
-    look-through graph is acyclic.) -/
+    look-through graph is acyclic.  On a cyclic graph the C function stops at depth 1000 with
+    FATAL "the type is defined through itself" and −1; the model's `none`.) -/
 def compareTags (M : Module) : Nat → Ex → Bool → Ex → Bool → Option CR
   | 0, _, _, _, _ => none
   | f + 1, a, ma, b, mb =>
@@ -422,7 +424,8 @@ inductive Verdict | accept | reject
   deriving DecidableEq, Repr
 
 /-- exit status class of `asn1c`: reject = EX_DATAERR after "FATAL: …" on stderr, nothing
-    written.  (Out of fuel is reported as reject; `Dom_C11` excludes it.) -/
+    written.  (Out of fuel is reported as reject, like the depth guard of `_asn1f_compare_tags`;
+    `Dom_C11` excludes it.) -/
 def fixerVerdict (M : Module) : Verdict :=
   match fixerRun M with
   | some ⟨false, _⟩ => .accept
